@@ -65,7 +65,7 @@ func c10Seeded(tier string) int {
 	if tier == "thorough" {
 		return 20000
 	}
-	return 300
+	return 1500
 }
 
 func (p *c10) NumCases(tier string) int {
